@@ -45,12 +45,16 @@ struct Stats {
     std::vector<int> schedule;    // its choice list
     std::string trace;            // human-readable trace of that execution
     uint64_t pruned = 0;
+    uint64_t abandoned = 0;       // executions given up by VS::abandon()
+    std::vector<std::pair<std::string, std::vector<int>>> abandonedSamples;   // first schedule per distinct reason (at most 16)
     // conflict witnesses for vacuity guards
     uint64_t contextSwitches = 0;
 };
 
 // called from process bodies / invariants
 void violation(const std::string &msg);           // record and abort the current execution
+void abandon(const std::string &reason);          // give up the current execution WITHOUT reporting a violation (e.g. it ran into
+                                                  // a known finding); the exploration goes on; see Stats::abandoned*
 int self();                                       // id of the running process, -1 in main context
 void note(const std::string &event);              // add a line to the execution trace
 void local(uint64_t v);                           // mix a process-local value into the state hash
